@@ -203,8 +203,13 @@ func C19(rep *ev.Reporter, tier string) {
 	}
 	wrapName := []string{"T", "*T", "**T", "iface"}
 	wrapPairs := [][2]int{{0, 0}, {1, 0}, {0, 1}, {2, 1}, {3, 0}, {0, 3}, {3, 3}, {1, 2}}
-	if tier == "quick" {
-		wrapPairs = wrapPairs[:6]
+	if tier == "thorough" {
+		wrapPairs = nil // all 16 wrapper pairs
+		for a := 0; a < 4; a++ {
+			for b := 0; b < 4; b++ {
+				wrapPairs = append(wrapPairs, [2]int{a, b})
+			}
+		}
 	}
 	ParallelEach(len(nums), func(i int) {
 		l := nums[i]
@@ -443,8 +448,8 @@ func c19Set(f *facts.Fact, field string, v float64) bool {
 // c19GRL checks the laws through real GRL conditions: 6 rules (one per operator) per field pair.
 func c19GRL(rep *ev.Reporter, tier string, report func(sig, what string, replay map[string]interface{})) int64 {
 	valuePairs := [][2]float64{{1, 2}, {2, 1}, {100, 100}, {0, 0}, {127, 127}, {1.5, 1}, {-1, 1}, {-128, 127}, {255, 256}}
-	if tier == "quick" {
-		valuePairs = valuePairs[:6]
+	if tier == "thorough" {
+		valuePairs = append(valuePairs, [2]float64{32767, 32768}, [2]float64{-32768, -32769}, [2]float64{65535, 65536}, [2]float64{2147483647, 2147483648}, [2]float64{4294967295, 4294967296}, [2]float64{0.5, 0.5}, [2]float64{-0.5, 0}, [2]float64{16777216, 16777217}, [2]float64{9007199254740992, 9007199254740993})
 	}
 	// NaN and the infinities (float fields only; c19Set refuses them for integer kinds): the consistency laws
 	// hold for them in Go - none of <, ==, > holds with a NaN operand, so <= and >= are false and != is true
